@@ -2,10 +2,14 @@
 //   c04 precise  <seed> <n> <outbase>     PrecisionModel(scale).getScale / makePrecise bits vs the floating model
 //   c04 hotpixel <seed> <n> <outbase>     the real noding::snapround::HotPixel vs the Int model (every corner / edge incidence)
 //   c04 prec-ops <seed> <n> <outbase>     GEOS*Prec_r, GEOSGeom_setPrecision_r (all flags) on generated valid inputs; contract checked by the driver
+//   c04 collapse <seed> <n> <outbase>     one operand is a sub-cell polygon placed at a feature point of the other (ring start, vertex, edge point,
+//                                         interior / exterior lattice point); lines "K g | A | B | he=xy | I | U | D | S | D(B,A)" with the edge flags of the
+//                                         real EdgeNodingBuilder; the driver checks the complete-collapse laws
 //   c04 replay <file>                     lines "P ..." / "H ..." / "O op flags g | A | B" / "W op flags <g decimal> | wktA | wktB"
 #include "gridgen.h"
 #include <geos/geom/PrecisionModel.h>
 #include <geos/noding/snapround/HotPixel.h>
+#include <geos/operation/overlayng/EdgeNodingBuilder.h>
 #include <cstdarg>
 #include <fstream>
 #include <iostream>
@@ -121,6 +125,48 @@ static void envOf(const Geometry* g, double& minx, double& miny, double& maxx, d
         maxAbs = std::max(maxAbs, std::max(std::fabs(x), std::fabs(y))); pts.push_back({x, y}); }
 }
 
+
+// ------------------------------------------------------------------ sub-cell partner family
+// A polygon of 3..5 vertices around (or beside) an anchor, with circumradius rho grid cells.  rho < 1/2 and an anchor on the grid:
+// every vertex rounds to the anchor and the polygon collapses completely; larger rho: partial collapses (lines) and survivors.
+static std::string tinyPolyTok(Rng& r, Out& out, double ax, double ay, double g, bool& whole) {
+    static const double RHO[] = {0.07, 0.2, 0.33, 0.45, 0.49, 0.7, 1.3};
+    int ri = (int) r.below(100); double rho = RHO[ri < 15 ? 0 : ri < 35 ? 1 : ri < 55 ? 2 : ri < 72 ? 3 : ri < 80 ? 4 : ri < 90 ? 5 : 6];
+    bool around = r.chance(70); double cx = ax, cy = ay;
+    if (!around) { double th = r.unit() * 6.283185307179586; double sh = (rho < 0.24 ? 0.25 : rho * 1.3) * g; cx += sh * std::cos(th); cy += sh * std::sin(th); if (rho < 0.24) { /* still inside the anchor's cell */ } }
+    int n = r.range(3, 5); double th0 = r.unit() * 6.283185307179586; std::vector<std::pair<double, double>> v;
+    for (int i = 0; i < n; i++) { double th = th0 + 6.283185307179586 * (double) i / (double) n; v.push_back({cx + rho * g * std::cos(th), cy + rho * g * std::sin(th)}); }
+    if (r.chance(50)) std::reverse(v.begin(), v.end());
+    v.push_back(v[0]);
+    whole = rho < 0.5 && (around || rho < 0.24);
+    out.count(around ? "tiny_around_anchor" : "tiny_beside_anchor"); out.count(rho < 0.5 ? "tiny_radius_lt_half_cell" : "tiny_radius_ge_half_cell");
+    std::string s = "0 Y 1 xy " + std::to_string(v.size()); for (auto& q : v) s += " " + hex(q.first) + " " + hex(q.second); return s; }
+
+// a feature point of g (lattice): ring / line start, another vertex, an edge point, an interior lattice point of a polygon, any lattice point
+static IPt pickAnchor(Rng& r, Out& out, GridGen& gen, const GGeom& g) {
+    std::vector<const std::vector<IPt>*> chains; std::vector<const GElem*> polys;
+    for (auto& e : g.elems) if (!e.empty) { for (auto& rg : e.rings) if (!rg.empty()) chains.push_back(&rg); if (e.kind == 2) polys.push_back(&e); }
+    int k = (int) r.below(100);
+    if (chains.empty() || k >= 85) { out.count("anchor_any_lattice_point"); return IPt{r.range(-1, gen.span + 1), r.range(-1, gen.span + 1)}; }
+    const std::vector<IPt>& c = *chains[r.below(chains.size())];
+    if (k < 32) { out.count("anchor_chain_start"); return c[0]; }
+    if (k < 52) { out.count("anchor_vertex"); return c[r.below(c.size())]; }
+    if (k < 68 && c.size() >= 2) { size_t i = r.below(c.size() - 1); long dx = c[i + 1].x - c[i].x, dy = c[i + 1].y - c[i].y, gg = gcdl(dx, dy);
+        if (gg > 1) { long t = r.range(1, (int) gg - 1); out.count("anchor_edge_point"); return IPt{c[i].x + dx / gg * t, c[i].y + dy / gg * t}; }
+        out.count("anchor_vertex"); return c[i]; }
+    if (!polys.empty()) { auto in = gen.interiorPoints(*polys[r.below(polys.size())]); if (!in.empty()) { out.count("anchor_interior_point"); return in[r.below(in.size())]; } }
+    out.count("anchor_vertex"); return c[r.below(c.size())]; }
+
+// grid size for the family, in lattice units 2^k: the anchor (a lattice point) stays a grid point for sizes <= 1 unit
+static double tinyGrid(Rng& r, Out& out, double unit) {
+    static const double F[] = {1.0, 0.5, 0.25, 0.125, 0.0625, 2.0}; int k = (int) r.below(100);
+    double f = F[k < 22 ? 0 : k < 44 ? 1 : k < 64 ? 2 : k < 78 ? 3 : k < 88 ? 4 : 5]; out.count(f <= 1.0 ? "tiny_grid_le_unit" : "tiny_grid_2_units"); return unit * f; }
+
+// hasEdgesFor(0) hasEdgesFor(1) of the real EdgeNodingBuilder for the pair under the fixed precision model of grid size g
+static std::string edgeFlags(const Geometry* a, const Geometry* b, double g) {
+    try { geos::geom::PrecisionModel pm(1.0 / g); geos::operation::overlayng::EdgeNodingBuilder nb(&pm, nullptr); nb.build(a, b);
+        std::string s; s += nb.hasEdgesFor(0) ? '1' : '0'; s += nb.hasEdgesFor(1) ? '1' : '0'; return s; } catch (...) { return "xx"; } }
+
 int main(int argc, char** argv) {
     if (argc < 3) return 2;
     std::string stream = argv[1];
@@ -135,6 +181,15 @@ int main(int argc, char** argv) {
                 else std::cout << "invalid\n";
                 continue; }
             auto parts = splitBar(line); if (parts.size() < 3) { std::cout << "invalid\n"; continue; }
+            if (line[0] == 'K') {
+                std::istringstream hs(parts[0]); std::string kind, gtok; hs >> kind >> gtok; double g = frombits(std::stoull(gtok, nullptr, 16));
+                std::unique_ptr<Geometry> a, b; try { a = buildGeom(parts[1], gf); b = buildGeom(parts[2], gf); } catch (...) { std::cout << "invalid\n"; continue; }
+                if (GEOSisValid_r(h, (GEOSGeometry*) a.get()) != 1 || GEOSisValid_r(h, (GEOSGeometry*) b.get()) != 1) { std::cout << "invalid\n"; continue; }
+                std::string out = "K " + hex(g) + " | " + parts[1] + " | " + parts[2] + " | he=" + edgeFlags(a.get(), b.get(), g);
+                static const char* OPS[] = {"I", "U", "D", "S"};
+                for (auto op : OPS) { std::string res = runOp(h, op, 0, g, (GEOSGeometry*) a.get(), (GEOSGeometry*) b.get()); out += " | " + res.substr(0, res.find(" | valid=")); }
+                { std::string res = runOp(h, "D", 0, g, (GEOSGeometry*) b.get(), (GEOSGeometry*) a.get()); out += " | " + res.substr(0, res.find(" | valid=")); }
+                std::cout << out << "\n"; continue; }
             std::istringstream hs(parts[0]); std::string kind, op, gtok, pretok; int flags = 0; hs >> kind >> op >> flags >> gtok; hs >> pretok;
             double g, pre = 0.0; if (pretok.compare(0, 4, "pre=") == 0) pre = frombits(std::stoull(pretok.substr(4), nullptr, 16));
             if (kind == "W") { g = std::stod(gtok);
@@ -221,6 +276,33 @@ int main(int argc, char** argv) {
             out.emit(c, e); }
         GEOS_finish_r(h); return 0; }
 
+    if (stream == "collapse") {
+        GridGen gen(r, h, &out); long emitted = 0;
+        while (emitted < n) {
+            gen.span = r.chance(50) ? 6 : (r.chance(50) ? 3 : 12);
+            gen.setPartner(GGeom{}, 0);
+            GGeom big = gen.geom(r.chance(75) ? 2 : 1, false, false);
+            DX t; t.exact = true; t.xf = gen.xform(); bool swapRoles = r.chance(35);
+            IPt an = pickAnchor(r, out, gen, big); double ax, ay; t.apply(an, ax, ay);
+            double g = tinyGrid(r, out, std::ldexp(1.0, t.xf.k)); bool whole = false; std::string tt = tinyPolyTok(r, out, ax, ay, g, whole);
+            std::string ta = swapRoles ? tt : geomTokD(big, t), tb = swapRoles ? geomTokD(big, t) : tt;
+            std::unique_ptr<Geometry> ga, gb;
+            try { ga = buildGeom(ta, gf); gb = buildGeom(tb, gf); } catch (...) { out.count("build_rejected"); continue; }
+            if (GEOSisValid_r(h, (GEOSGeometry*) ga.get()) != 1 || GEOSisValid_r(h, (GEOSGeometry*) gb.get()) != 1) { out.count("invalid_skipped"); continue; }
+            double maxAbs = 0; { auto cs = ga->getCoordinates(); for (size_t i = 0; i < cs->size(); i++) maxAbs = std::max(maxAbs, std::max(std::fabs(cs->getX(i)), std::fabs(cs->getY(i)))); }
+            { auto cs = gb->getCoordinates(); for (size_t i = 0; i < cs->size(); i++) maxAbs = std::max(maxAbs, std::max(std::fabs(cs->getX(i)), std::fabs(cs->getY(i)))); }
+            if (maxAbs / g >= 281474976710656.0) { out.count("resolution_skipped"); continue; }
+            std::string he = edgeFlags(ga.get(), gb.get(), g);
+            out.count(swapRoles ? "tiny_is_first_operand" : "tiny_is_second_operand"); out.count("edge_flags_" + he); if (whole) out.count("tiny_expected_to_collapse_completely");
+            std::string line = "K " + hex(g) + " | " + ta + " | " + tb + " | he=" + he;
+            { FILE* cf = std::fopen((std::string(argv[4]) + ".current").c_str(), "w"); if (cf) { std::fprintf(cf, "%s\n", line.c_str()); std::fclose(cf); } }
+            static const char* OPS[] = {"I", "U", "D", "S"};
+            for (auto op : OPS) { std::string res = runOp(h, op, 0, g, (GEOSGeometry*) ga.get(), (GEOSGeometry*) gb.get()); if (res.compare(0, 2, "ex") == 0) out.count("EXCEPTION"); line += " | " + res.substr(0, res.find(" | valid=")); }
+            { std::string res = runOp(h, "D", 0, g, (GEOSGeometry*) gb.get(), (GEOSGeometry*) ga.get()); line += " | " + res.substr(0, res.find(" | valid=")); }
+            out.emit(line, "ok"); emitted++;
+        }
+        GEOS_finish_r(h); return 0; }
+
     if (stream != "prec-ops") return 2;
     GridGen gen(r, h, &out);
     long emitted = 0;
@@ -252,6 +334,13 @@ int main(int argc, char** argv) {
             double off = r.chance(30) ? 0.0 : std::pow(10.0, r.range(-3, 9)); t.tx = off * (r.unit() - 0.5) * 2; t.ty = off * (r.unit() - 0.5) * 2;
             out.count("map_double_similarity"); }
         std::string ta = geomTokD(A, t), tb = geomTokD(B, t);
+        bool tiny = !coll && !tieFocus && r.chance(18); double gTiny = 0;
+        if (tiny) {      // sub-cell partner: B (or A) becomes a tiny polygon at a feature point of the other operand; exact lattice map
+            t = DX{}; t.exact = true; t.xf = gen.xform(); bool swapRoles = r.chance(35);
+            const GGeom& big = swapRoles ? B : A; IPt an = pickAnchor(r, out, gen, big); double ax, ay; t.apply(an, ax, ay);
+            gTiny = tinyGrid(r, out, std::ldexp(1.0, t.xf.k)); bool whole = false; std::string tt = tinyPolyTok(r, out, ax, ay, gTiny, whole);
+            if (swapRoles) { ta = tt; tb = geomTokD(B, t); } else { ta = geomTokD(A, t); tb = tt; }
+            out.count(swapRoles ? "map_subcell_partner_first" : "map_subcell_partner_second"); }
         std::unique_ptr<Geometry> ga, gb;
         try { ga = buildGeom(ta, gf); gb = buildGeom(tb, gf); } catch (...) { out.count("build_rejected"); continue; }
         if (GEOSisValid_r(h, (GEOSGeometry*) ga.get()) != 1 || GEOSisValid_r(h, (GEOSGeometry*) gb.get()) != 1) { out.count("invalid_skipped"); continue; }
@@ -262,7 +351,8 @@ int main(int argc, char** argv) {
         double ext = std::max(maxx - minx, maxy - miny); if (!(ext > 0)) ext = maxAbs > 0 ? maxAbs : 1.0;
         double unit = t.exact ? std::ldexp(1.0, t.xf.k) : std::sqrt(std::fabs(t.a * t.d - t.b * t.c));
         double g; int gm = (int) r.below(100);
-        if (tieFocus) { g = unit * (r.chance(60) ? 2.0 : 4.0); out.count("grid_tie_focus"); }
+        if (tiny) { g = gTiny; out.count("grid_subcell_partner"); }
+        else if (tieFocus) { g = unit * (r.chance(60) ? 2.0 : 4.0); out.count("grid_tie_focus"); }
         else if (gm < 30) { g = std::pow(10.0, -6.0 + 9.0 * r.unit()) * ext; out.count("grid_random_1e-6..1e3_x_extent"); }
         else if (gm < 45) { int k = (int) std::floor(std::log10(ext)) + r.range(-6, 3); g = std::pow(10.0, k); out.count("grid_power_of_ten"); }
         else if (gm < 55) { int k = (int) std::floor(std::log2(ext)) + r.range(-20, 10); g = std::ldexp(1.0, k); out.count("grid_power_of_two"); }
